@@ -243,6 +243,9 @@ def check_client(ctx, rule, method, variant=None):
     got, sent = eval_client(f, method)
     ok = len(sent) == 1
     detail = ""
+    # the parameter that names the document is told by its type, not by its name
+    ns_params = ["arg." + (b.local_name(i) or "p%d" % i) for i in range(2, b.rec["argc"] + 1) if b.locals[i]["ty"].strip("&") == "keys::NamespaceId"]
+    ns_arg = ns_params[0] if len(ns_params) == 1 else "arg.namespace"
     if ok:
         m = re.fullmatch(r"Replica\((arg\.\w+),%s\((.*)\)\)" % variant, sent[0])
         ok = bool(m)
@@ -251,8 +254,9 @@ def check_client(ctx, rule, method, variant=None):
             pairs = dict(zip(fields, vals))
             params = [v for k2, v in pairs.items() if k2 != "reply"]
             reply = pairs.get("reply")
-            ok = len(vals) == len(fields) and m.group(1) == "arg.namespace" and all(re.fullmatch(r"arg\.\w+", v) for v in params) and len(set(params)) == len(params) \
-                and "arg.namespace" not in params and reply in ("reply-tx", "arg.reply")
+            reply_ok = reply == "reply-tx" or (reply is not None and re.fullmatch(r"arg\.\w+", reply) and reply not in params)
+            ok = len(vals) == len(fields) and m.group(1) == ns_arg and all(re.fullmatch(r"arg\.\w+", v) for v in params) and len(set(params)) == len(params) \
+                and ns_arg not in params and reply_ok
             ok = ok and (got == "Ok(reply)" if reply == "reply-tx" else got == "Ok(())")
             detail = "fields %s" % pairs
     ctx.check(ok, rule, path, "sends[%s]" % variant,
